@@ -632,6 +632,15 @@ func (r *runner) runSrv(f []string) string {
 		return fmt.Sprintf("mon doneall %d", n)
 	case "settle": // wait until nothing moves any more; the outputs are summarised, not compared
 		return "mon " + s.settle()
+	case "racega": // the idle timer's GOAWAY is held between reading lastID and queueing the frame while <hex> is dealt with
+		if len(f) != 4 {
+			return "bad-op"
+		}
+		b, ok := unhex(f[3])
+		if !ok {
+			return "bad-op"
+		}
+		return s.raceGoAway(b)
 	case "stall": // the peer stops reading from here on; only burst, doneall and stallcut may follow
 		s.mc.out.setStall(true)
 		return "mon stalled"
@@ -687,6 +696,41 @@ func (s *srvConn) end() string {
 	}
 	s.shutdown()
 	return "ok " + ret
+}
+
+// raceGoAway forces the one interleaving the serial stepping never produces: the idle timer's goroutine has read
+// lastID for its GOAWAY and has not queued the frame yet; meanwhile the stream loop deals with the frames in b (a
+// new request, say). Then the timer goes on. What the peer sees is judged by the GOAWAY monitor.
+func (s *srvConn) raceGoAway(b []byte) string {
+	if s.returned {
+		return "out gone"
+	}
+	reached, release := make(chan struct{}), make(chan struct{})
+	var once sync.Once
+	fn := func(point string) {
+		if point == "goaway-loaded-last" {
+			once.Do(func() {
+				close(reached)
+				<-release
+			})
+		}
+	}
+	http2.VerifYieldFn.Store(&fn)
+	go http2.VerifCloseIdle()
+	select {
+	case <-reached:
+	case <-time.After(2 * time.Second):
+	}
+	before := s.enteredN()
+	s.noteSettings(b)
+	s.mc.in.write(b)
+	// until a handler has been entered for it, or it is clear that none will be while the timer is held
+	for i := 0; i < 300 && s.enteredN() == before; i++ {
+		time.Sleep(time.Millisecond)
+	}
+	close(release)
+	http2.VerifYieldFn.Store(nil)
+	return s.quiesce()
 }
 
 // stallCut: the peer stops reading (writes to it block), sends n PING frames, each of which asks for an answer, and
